@@ -3,9 +3,11 @@
 package evaluator
 
 import (
+	"fmt"
 	"time"
 
 	"github.com/karrick/goswarm"
+	"github.com/spf13/viper"
 	"go.uber.org/zap"
 
 	"github.com/linkedin/Burrow/core/protocol"
@@ -24,28 +26,21 @@ func VerifEvaluatePartitionStatus(partition *protocol.ConsumerPartition, minimum
 	return evaluatePartitionStatus(partition, minimumComplete, allowedLag)
 }
 
-// VerifNewCachingEvaluator builds a CachingEvaluator with the given settings and its goswarm cache exactly
-// as Configure does, without reading viper.
-func VerifNewCachingEvaluator(app *protocol.ApplicationContext, expireCache int, minimumComplete float32, allowedLag uint64) (*CachingEvaluator, error) {
-	module := &CachingEvaluator{
-		App:             app,
-		Log:             zap.NewNop(),
-		name:            "verif",
-		expireCache:     expireCache,
-		minimumComplete: minimumComplete,
-		allowedLag:      allowedLag,
-		RequestChannel:  make(chan *protocol.EvaluatorRequest),
-	}
-	cacheExpire := time.Duration(module.expireCache) * time.Second
-	newCache, err := goswarm.NewSimple(&goswarm.Config{
-		GoodExpiryDuration: cacheExpire,
-		BadExpiryDuration:  cacheExpire,
-		Lookup:             module.evaluateConsumerStatus,
-	})
-	if err != nil {
-		return nil, err
-	}
-	module.cache = newCache
+// VerifNewCachingEvaluator builds a CachingEvaluator with the given settings through the real Configure
+// (the settings are placed in viper under a private root first), so that the cache is set up by the code
+// under verification and not by a copy of it.
+func VerifNewCachingEvaluator(app *protocol.ApplicationContext, expireCache int, minimumComplete float32, allowedLag uint64) (module *CachingEvaluator, err error) {
+	const root = "verif-evaluator.verif"
+	viper.Set(root+".expire-cache", expireCache)
+	viper.Set(root+".minimum-complete", float64(minimumComplete))
+	viper.Set(root+".allowed-lag", allowedLag)
+	module = &CachingEvaluator{App: app, Log: zap.NewNop()}
+	defer func() {
+		if r := recover(); r != nil {
+			module, err = nil, fmt.Errorf("Configure panicked: %v", r)
+		}
+	}()
+	module.Configure("verif", root)
 	return module, nil
 }
 
